@@ -590,7 +590,7 @@ fn gen_hosts(rng: &mut Rng, n: usize) -> Vec<Vec<String>> {
 fn gen_wire(rng: &mut Rng) -> WireSc {
     let nh = rng.usize(2, 3);
     let hosts = gen_hosts(rng, nh);
-    let cfg = NetCfg { retx_threshold: rng.range(2, 3) as u32, retx_max: rng.range(3, 5) as u32, backlog: 16 };
+    let cfg = NetCfg { retx_threshold: rng.range(2, 3) as u32, retx_max: rng.range(3, 5) as u32, backlog: 16, recv_cap: 0 };
     let mut next_id = 1u32;
     let mut pre = Vec::new();
     for _ in 0..rng.below(3) {
